@@ -18,7 +18,9 @@
 EXTENDS Naturals, Sequences, FiniteSets, TLC
 CONSTANTS Dev
 Codecs == {"none", "gzip", "bz2", "lz4", "zstd"}
-Containers == {"stream", "avro", "json", "text", "garbage", "empty", "junkmagic"}     \* junkmagic: non-stream bytes that contain the stream magic at the wrong place
+\* junkmagic: non-stream bytes that contain the stream magic at the wrong place; cutcodec: the first few bytes of a valid
+\* compressed stream (the codec's magic is there, fewer than the 19 header bytes can be decoded)
+Containers == {"stream", "avro", "json", "text", "garbage", "empty", "junkmagic", "cutcodec"}
 \* "stdin": standard input without a name (codec and container sniffed); "stdin_scheme": standard input named by a URL
 \* scheme (stream://- , avro://-): codec sniffed, container from the scheme; "fileobj_offset": a file object positioned
 \* behind a preamble that is not part of the source
@@ -47,13 +49,13 @@ Outcome == IF AdapterSeen = "none" THEN "refused"
            ELSE IF AdapterSeen = container THEN "records" ELSE "refused"        \* (junkmagic is sniffed as "stream" and then rejected by the header check)        \* the adapter rejects bytes that are not its format
 \* ---- C11 ----
 \* what the property promises
-Promised == IF container \in {"text", "garbage", "empty", "junkmagic"} THEN "refused"
+Promised == IF container \in {"text", "garbage", "empty", "junkmagic", "cutcodec"} THEN "refused"
             ELSE IF container = "json" THEN (IF naming \in {"ext", "stdin_scheme", "class_fileobj"} THEN "records" ELSE "refused")      \* JSON is only reachable by extension / scheme
             ELSE IF container = "avro" /\ naming = "neutral" THEN "refused"                      \* for paths the container follows the extension
             ELSE "records"
 Transparent == (peeklen >= 19) => Outcome = Promised
 \* input that is none of these is refused -- never misread as records
-RefusesJunk == container \in {"text", "garbage", "empty", "junkmagic"} => Outcome = "refused"
+RefusesJunk == container \in {"text", "garbage", "empty", "junkmagic", "cutcodec"} => Outcome = "refused"
 \* the codec is ALWAYS recognised from the leading bytes (fails as built when a peek delivers less than the magic)
 AlwaysRecognised == (Sniffed(naming) /\ container \in {"stream", "avro"}) => Outcome = "records"
 =============================================================================
